@@ -817,6 +817,12 @@ func (r *envelopingReader) Read(data []byte) (n int, err error) {
 	if r.err != nil {
 		return 0, r.err
 	}
+	if r.envRemain > 0 {
+		// finish handing out the envelope before any of the message that follows it
+		n = copy(data, r.env[envelopeLen-r.envRemain:])
+		r.envRemain -= n
+		return n, nil
+	}
 	if r.current != nil {
 		bytesRead, err := r.current.Read(data)
 		isEOF := errors.Is(err, io.EOF)
